@@ -405,6 +405,90 @@ def range_len_to_enumerate(src):
     return ast.unparse(ast.fix_missing_locations(S().visit(tree))) + '\n'
 
 
+_PURE_CALLS = {'len', 'where', 'zeros', 'ones', 'str', 'int', 'Monitor', 'list', 'set', 'argsort', 'array'}
+
+
+def _simple_pure_assign(st):
+    if not (isinstance(st, ast.Assign) and len(st.targets) == 1 and isinstance(st.targets[0], ast.Name)):
+        return False
+    for n in ast.walk(st.value):
+        if isinstance(n, ast.Call) and not (isinstance(n.func, ast.Name) and n.func.id in _PURE_CALLS):
+            return False
+        if isinstance(n, (ast.NamedExpr, ast.Lambda, ast.ListComp, ast.GeneratorExp, ast.SetComp, ast.DictComp)):
+            return False
+    return True
+
+
+def swap_independent_assignments(src):
+    """x = e1; y = e2  ->  y = e2; x = e1   when neither reads the other's target"""
+    tree = ast.parse(src)
+
+    def reads(e):
+        return {n.id for n in ast.walk(e) if isinstance(n, ast.Name) and isinstance(n.ctx, ast.Load)}
+
+    class S(ast.NodeTransformer):
+        def _block(self, body):
+            out = list(body)
+            i = 0
+            while i + 1 < len(out):
+                a, b = out[i], out[i + 1]
+                if _simple_pure_assign(a) and _simple_pure_assign(b):
+                    ta, tb = a.targets[0].id, b.targets[0].id
+                    if ta != tb and ta not in reads(b.value) and tb not in reads(a.value):
+                        out[i], out[i + 1] = b, a
+                        i += 2
+                        continue
+                i += 1
+            return out
+
+        def generic_visit(self, node):
+            super().generic_visit(node)
+            for f in ('body', 'orelse', 'finalbody'):
+                b = getattr(node, f, None)
+                if isinstance(b, list) and b and isinstance(b[0], ast.stmt):
+                    setattr(node, f, self._block(b))
+            return node
+    return ast.unparse(ast.fix_missing_locations(S().visit(tree))) + '\n'
+
+
+def hoist_len_tests(src):
+    """if len(x) > c: ...   ->   n_x = len(x); if n_x > c: ...   (first test of an if statement in a block only)"""
+    tree = ast.parse(src)
+    counter = [0]
+
+    class S(ast.NodeTransformer):
+        def _block(self, body):
+            out = []
+            for st in body:
+                if isinstance(st, ast.If) and isinstance(st.test, ast.Compare) and isinstance(st.test.left, ast.Call) \
+                        and isinstance(st.test.left.func, ast.Name) and st.test.left.func.id == 'len' \
+                        and len(st.test.left.args) == 1 and isinstance(st.test.left.args[0], ast.Name):
+                    counter[0] += 1
+                    name = 'hoisted_length_%d' % counter[0]
+                    out.append(ast.copy_location(ast.Assign([ast.Name(name, ast.Store())], st.test.left), st))
+                    st.test = ast.Compare(ast.Name(name, ast.Load()), st.test.ops, st.test.comparators)
+                    # the same length is usually tested again in the elif chain
+                    cur = st
+                    while len(cur.orelse) == 1 and isinstance(cur.orelse[0], ast.If):
+                        cur = cur.orelse[0]
+                        t = cur.test
+                        if isinstance(t, ast.Compare) and isinstance(t.left, ast.Call) and ast.dump(t.left) == ast.dump(out[-1].value):
+                            cur.test = ast.Compare(ast.Name(name, ast.Load()), t.ops, t.comparators)
+                out.append(st)
+            return out
+
+        def generic_visit(self, node):
+            super().generic_visit(node)
+            for f in ('body', 'orelse', 'finalbody'):
+                b = getattr(node, f, None)
+                if isinstance(b, list) and b and isinstance(b[0], ast.stmt):
+                    if f == 'orelse' and len(b) == 1 and isinstance(b[0], ast.If):
+                        continue
+                    setattr(node, f, self._block(b))
+            return node
+    return ast.unparse(ast.fix_missing_locations(S().visit(tree))) + '\n'
+
+
 TWINS = {
     'unparse': unparse_only,
     'rename-locals': rename_locals,
@@ -428,4 +512,6 @@ TWINS = {
     'where-to-flatnonzero': where_to_flatnonzero,
     'swap-exclusive-elif': swap_exclusive_elif,
     'range-len-to-enumerate': range_len_to_enumerate,
+    'swap-independent-assignments': swap_independent_assignments,
+    'hoist-len-tests': hoist_len_tests,
 }
